@@ -112,6 +112,31 @@ def hinted_targets(project, level, depth):
                 nxt.append((t, (label, mj[1])))
         frontier = nxt
     if depth >= 2:
+        # two Meta options of ONE model changed at once (the hint holds two
+        # ChangeMeta mutations for the same model)
+        for app in project['apps']:
+            label = app['label']
+            for m in app['models']:
+                menu = {}
+                for prop, value in AL.meta_menu(m, level):
+                    if value:
+                        menu.setdefault(prop, value)
+                props = sorted(menu)
+                for i in range(len(props)):
+                    for j in range(i + 1, len(props)):
+                        try:
+                            t = ML.apply(project, label, [
+                                'ChangeMeta', m['name'], props[i],
+                                menu[props[i]]])
+                            t = ML.apply(t, label, [
+                                'ChangeMeta', m['name'], props[j],
+                                menu[props[j]]])
+                        except ML.Disabled:
+                            continue
+                        k = S.canon_unordered(t)
+                        if k not in seen:
+                            seen.add(k)
+                            out.append(t)
         # a field *moved* between two models of an app (same name deleted
         # here, added there): names collide across models
         for app in project['apps']:
